@@ -148,9 +148,9 @@ impl Check for ControllerExt {
     }
     fn runs(&self, tier: Tier) -> u64 {
         if tier == Tier::Quick {
-            600
+            3000
         } else {
-            60_000
+            60000
         }
     }
     fn components(&self) -> serde_json::Value {
